@@ -137,6 +137,11 @@ func c11Drivers() []c11Driver {
 	// library import: all names / selective / a name that collides with an earlier definition
 	add("library-import-all", "导入《@JSON》\n导入《@文件》\n输出（生成JSON：【a=1】）")
 	add("library-import-twice", "导入《@JSON》\n导入《@JSON》\n输出1")
+	// a library call that fails: the same failure, word for word, every time
+	add("file-write-failure-handled", "导入《@文件》\n如何试写？\n    （写入文件：“/verif-无此目录/子/报告.txt”、“x”）\n    输出“写了”\n    拦截异常：\n        输出其内容\n输出（试写）")
+	add("file-write-failure", "导入《@文件》\n（写入文件：“/verif-无此目录/子/报告.txt”、“x”）")
+	add("file-write-onto-directory", "导入《@文件》\n（写入文件：“/”、“x”）")
+	add("file-read-failure", "导入《@文件》\n输出（读取文件：“/verif-无此目录/无.txt”）")
 	add("error-in-method", "如何甲法？\n    输出【A=1，B=2，C=3】#“D”\n输出（甲法）")
 	// modules: import-all of modules exporting three names; two modules exporting colliding names
 	ds = append(ds, c11Driver{Name: "module-import-all", Kind: "files", Files: map[string]string{
@@ -169,6 +174,11 @@ func c11Drivers() []c11Driver {
 	ds = append(ds, c11Driver{Name: "http-headers", Kind: "http",
 		Source: "输入当前请求\n输出【当前请求之头部之所有索引，当前请求之查询参数之所有索引】",
 		Header: map[string]string{"X-C": "1", "X-A": "2", "X-B": "3"}, Query: "c=1&a=2&b=3"})
+	// names that differ only in the case of their letters are different names: every one has its
+	// place in the dictionaries, whatever order the host's maps hand them out in
+	ds = append(ds, c11Driver{Name: "http-names-differ-in-case", Kind: "http",
+		Source: "输入当前请求\n输出【当前请求之头部，当前请求之查询参数】",
+		Header: map[string]string{"X-Ab": "1", "x-ab": "2", "X-AB": "3"}, Query: "id=9&ID=8&Id=7&iD=6"})
 	// the response class is registered by a harness library (stdlib/http, which does it in the
 	// product, does not compile at this commit); header names that canonicalise to one header
 	ds = append(ds, c11Driver{Name: "http-response-headers", Kind: "http",
@@ -310,7 +320,7 @@ func init() {
 	mc.Register(&mc.Check{
 		ID:    "C11",
 		Level: "model_checking",
-		Rule: "E3: stateless deviation-bounded DFS over map-iteration-order choices. Every range-over-map site of the interpreter (inventoried from the current source with go/types by tools/mapperm and rewritten through a build overlay) is a choice point at each dynamic occurrence with n! alternatives for n <= 3 keys (rotations + reversal above); deviation = an occurrence not in sorted order; bounds 0,1,2 (3 in thorough). Driver programs per site with >= 3 keys and contents chosen so that order matters if it can: dictionary 为/不为/==//= with equal key sets under all 8 patterns of differing values, nested, 包含/寻找 of dictionaries; the same with the right-hand keys reversed, and with an entry that cannot be compared (an object) at each position x every pattern of differing entries x same / reversed key order; parsed JSON documents of every shape with 1..2 top-level members over {scalar, object of 3, list of objects, object in object}, shown and re-generated, also as HTTP JSON request bodies; 所有索引/iteration; 生成JSON; object creation with 3 defaults; library and module imports (all names, colliding names, cycles); HTTP request headers/query and response headers; expression inputs. Oracle: all executions of one driver are identical in result, display trace and error (class, code, message, rendered report incl. lines). A state = one complete execution under one order vector.",
+		Rule: "E3: stateless deviation-bounded DFS over map-iteration-order choices. Every range-over-map site of the interpreter (inventoried from the current source with go/types by tools/mapperm and rewritten through a build overlay) is a choice point at each dynamic occurrence with n! alternatives for n <= 3 keys (rotations + reversal above); deviation = an occurrence not in sorted order; bounds 0,1,2 (3 in thorough). Driver programs per site with >= 3 keys and contents chosen so that order matters if it can: dictionary 为/不为/==//= with equal key sets under all 8 patterns of differing values, nested, 包含/寻找 of dictionaries; the same with the right-hand keys reversed, and with an entry that cannot be compared (an object) at each position x every pattern of differing entries x same / reversed key order; parsed JSON documents of every shape with 1..2 top-level members over {scalar, object of 3, list of objects, object in object}, shown and re-generated, also as HTTP JSON request bodies; 所有索引/iteration; 生成JSON; object creation with 3 defaults; library and module imports (all names, colliding names, cycles); HTTP request headers/query (also names that differ only in case) and response headers; expression inputs; failing file-library calls. Every driver is also executed twice under the default order. Oracle: all executions of one driver are identical in result, display trace and error (class, code, message, rendered report incl. lines). A state = one complete execution under one order vector.",
 		Assumptions: []string{
 			"only hash-map iteration order is controlled (the source the statement names); Go select, goroutine scheduling and rand are not (取随机数 is excepted by the statement)",
 			"order vectors with more deviations than the bound are not covered; sites no driver reaches are listed in evidence, not reported as violations",
@@ -355,6 +365,14 @@ func init() {
 						reached[p.Kind] = true
 					}
 					c.Stat("transitions", int64(len(rec.Log)))
+				}, c.Expired)
+				// the same order vector once more: the same execution (what no map order explains:
+				// a random name, a clock, an address in a message)
+				n += mc.Explore(0, func(rec *mc.Recorder) {
+					o := c11RunOnce(d, rec)
+					if _, ok := outcomes[o]; !ok {
+						outcomes[o] = rec.Choices()
+					}
 				}, c.Expired)
 				c.EvalN(n, n)
 				c.Stat("states", n)
